@@ -528,9 +528,11 @@ def mutate(case, rng):
 
 
 REQ = ["Base.Chars", "Base.Outcome", "Model.Security", "Spec.Security", "Run.C16run"]
+SUITE = Suite("caps", gen, "run_case", REQ, "judge", to_coq, mutate=mutate, py_oracle=py_oracle, stratum=stratum, shard=150)
+SUITE.model_expr = "model_view"      # printed by ./check C16 --replay
 PROPERTY = Property(
     pid="C16", props_file="Props/C16.v",
-    suites=[Suite("caps", gen, "run_case", REQ, "judge", to_coq, mutate=mutate, py_oracle=py_oracle, stratum=stratum, shard=150)],
+    suites=[SUITE],
     rule="pipeline documents with allow_external_sources / allow_template_vars / vars_allowed_paths injected (truthy, falsy, absent) "
          "at the top level, on transformation, post-processing and finalizer items and on nested items of depth <= 3; "
          "x {file, command (string and argv), http} placeholder sources and template items with a vars file "
